@@ -76,7 +76,53 @@ def gen_escape(facts):
     return lines
 
 
-GENERATORS = [('escape', gen_escape)]
+EXC_CLASSES = ['BaseException', 'Exception', 'AttributeError', 'NameError', 'UnboundLocalError', 'LookupError', 'KeyError',
+               'IndexError', 'TypeError', 'ValueError', 'UnicodeDecodeError', 'UnicodeError', 'ZeroDivisionError', 'ArithmeticError',
+               'RuntimeError', 'RecursionError', 'AssertionError', 'StopIteration', 'OSError', 'KeyboardInterrupt', 'SystemExit',
+               'NotImplementedError', 'OverflowError']
+
+
+def lean_strs(xs):
+    return '[' + ', '.join(lean_str(x) for x in xs) + ']'
+
+
+def gen_names(facts):
+    import builtins
+
+    from chameleon import tales
+    from chameleon.compiler import COMPILER_INTERNALS_OR_DISALLOWED, Compiler
+    from chameleon.zpt import template as zt
+    from chameleon.zpt.program import MacroProgram
+    tal_exc = [c.__name__ for c in tales.TalesExpr.exceptions]
+    ex_exc = [c.__name__ for c in tales.ExistsExpr.exceptions]
+    parents = []
+    for n in EXC_CLASSES:
+        cls = getattr(builtins, n)
+        parents.append((n, [c.__name__ for c in cls.__mro__ if c is not object]))
+    pyb = sorted(n for n in builtins.__dict__ if isinstance(n, str))
+    facts['tales_exceptions'] = tal_exc
+    facts['exists_exceptions'] = ex_exc
+    facts['compiler_internals'] = sorted(COMPILER_INTERNALS_OR_DISALLOWED)
+    facts['compiler_defaults'] = sorted(Compiler.defaults)
+    facts['expression_types'] = sorted(zt.PageTemplate.expression_types)
+    facts['boolean_html'] = list(zt.BOOLEAN_HTML_ATTRIBUTES)
+    facts['drop_ns'] = list(MacroProgram.DROP_NS)
+    lines = [
+        'def talesExceptions : List String := ' + lean_strs(tal_exc),
+        'def existsExceptions : List String := ' + lean_strs(ex_exc),
+        'def excParents : List (String × List String) := [' + ', '.join('(%s, %s)' % (lean_str(n), lean_strs(m)) for n, m in parents) + ']',
+        'def pyBuiltins : List String := ' + lean_strs(pyb),
+        'def compilerInternals : List String := ' + lean_strs(sorted(COMPILER_INTERNALS_OR_DISALLOWED)),
+        'def compilerDefaults : List String := ' + lean_strs(sorted(Compiler.defaults)),
+        'def expressionTypes : List String := ' + lean_strs(sorted(zt.PageTemplate.expression_types)),
+        'def defaultExpression : String := ' + lean_str(zt.PageTemplate.default_expression),
+        'def booleanHtml : List String := ' + lean_strs(zt.BOOLEAN_HTML_ATTRIBUTES),
+        'def dropNs : List String := ' + lean_strs(MacroProgram.DROP_NS),
+    ]
+    return lines
+
+
+GENERATORS = [('escape', gen_escape), ('names', gen_names)]
 
 
 def gen_tables(facts):
